@@ -74,7 +74,7 @@ def main():
     st = {}
     N._inline_helpers(mod, "m", {"m.f"}, st)
     fnode = [n for n in mod.body if n.name == "f"][0]
-    N._desugar_comps(fnode, set(), st)
+    N._desugar_comps(fnode, set(), st, loopbuilt=frozenset({'r'}), ref_ncomps=0)
     N._inline_locals(fnode, "m.f", {}, st)
     ast.fix_missing_locations(mod)
     txt = ast.unparse(mod)
